@@ -66,6 +66,11 @@ def gen_cases(tier, seed):
                     unbounded = rng.random() < 0.3
                     cases.append({'op': op, 'size': size, 'profile': prof, 'length': length, 'unbounded': unbounded,
                                   'fuzz': rng.random() < 0.6, 'seed': rng.randrange(1 << 30)})
+    # elements that are exception objects, slow consumer: the bound does not depend on what the elements are
+    for op in ('buffer', 'abuffer', 'parmap-thread'):
+        for size in (1, 3):
+            cases.append({'op': op, 'size': size, 'profile': 'slow-consumer', 'length': 200, 'unbounded': size == 3, 'elem': 'exc',
+                          'fuzz': False, 'seed': rng.randrange(1 << 30)})
     for i in range(6 if tier == 'quick' else 90):
         # the first three always keep every worker process busy (slow workers), so that an extra process shows as an extra overlapping call
         prof = 'slow-worker' if i % 6 < 3 else rng.choice(['slow-consumer', 'fast', 'slow-worker'])
@@ -272,6 +277,9 @@ def run_case(case):
     proc_items = None
     if op == 'parmap-process':
         base = [(i, work_sleep) for i in range(n)]
+    if case.get('elem') == 'exc':
+        # the elements are exception OBJECTS (what parmap(return_exceptions=True) emits during a failure storm): ordinary data for a buffer
+        base = (ValueError('element', i) if i % 4 else KeyboardInterrupt('element', i) for i in base)
     src = CountingIter(base, led, src_pause)
     viol = []
     proc_results = []
